@@ -58,12 +58,21 @@ class C05(Engine):
         P = self.pools
         q = self.tier == "quick"
         out = []
-        for g in ("corpus", "gen", "viol", "special_literal", "special_clean", "special_notice", "special_zoo", "special_odd"):
+        # small hand-written members first ...
+        for g in ("special_zoo", "special_odd", "special_literal", "special_clean", "special_notice"):
             ids = P.groups.get(g, [])
             if g in ("special_literal", "special_odd") and q:
                 r = core.derive_rng("c05." + g, self.seed, 0)
                 ids = sorted(r.sample(ids, 8))
             out += ids
+        # ... then generated, repository and violating programs in turn, so that the quick tier's volume cap cuts all three evenly
+        groups = [list(P.groups.get(g, [])) for g in ("gen", "corpus", "viol")]
+        k = 0
+        while any(groups):
+            g = groups[k % 3]
+            if g:
+                out.append(g.pop(0))
+            k += 1
         return out
 
     def scenarios(self):
@@ -76,7 +85,7 @@ class C05(Engine):
             content = f["content"]
             if len(content) > 8192 and q:
                 continue
-            if q and idx > 28000:
+            if q and idx > 31000:
                 self.count("quick_cap", "base programs not enumerated (volume cap of the quick tier)")
                 continue
             stem, ext = f["name"].rsplit(".", 1)
